@@ -1,9 +1,10 @@
 ----------------------------- MODULE OvniSortMC -----------------------------
-(* Model-checking instance of OvniSort: the set of ring sizes can be narrowed
-   through the environment (C16_RINGS = one ring size) so that the harness
-   runs one TLC process per ring size in parallel; without the variable all
-   ring sizes 2..5 are explored by one process.                            *)
+(* Model-checking instance of OvniSort.  The set of ring sizes can be
+   narrowed through the environment (C16_RING = one ring size) so that the
+   harness runs one TLC process per ring size in parallel.  Without the
+   variable one process explores ring sizes 2..5 and 8 (8 = unbounded look
+   back for the stream lengths used).                                      *)
 EXTENDS OvniSort, IOUtils
 
-MCRings == IF "C16_RING" \in DOMAIN IOEnv THEN {atoi(IOEnv.C16_RING)} ELSE {2, 3, 4, 5}
+MCRings == IF "C16_RING" \in DOMAIN IOEnv THEN {atoi(IOEnv.C16_RING)} ELSE {2, 3, 4, 5, 8}
 =============================================================================
